@@ -44,6 +44,7 @@ type oresp struct {
 	Body     string   // entity body (identity)
 	Chunks   []int    // chunk sizes when Framing == "chunked" (sum == len(Body))
 	Trailers []hfield // trailer fields (declared in Trailer: when DeclareTrailers)
+	Interim  []string // interim (1xx) responses the origin writes, raw, before the final response
 	Undeclared []hfield // trailer fields sent after the declared ones without being named in Trailer
 	Declare  bool     // send "Trailer: k1, k2" in the head
 	HeadTE   bool     // bodiless head that still carries Transfer-Encoding: chunked (HEAD/204/304 replies)
@@ -63,6 +64,7 @@ type xreq struct {
 	Proto   string // "HTTP/1.1" | "HTTP/1.0"
 	Conn    string // "" | "close" | "keep-alive"
 	AcceptE string // Accept-Encoding sent by the client ("" = none)
+	Expect  bool   // send "Expect: 100-continue" (the body is sent at once all the same)
 	Body    string // POST body
 }
 
@@ -165,8 +167,15 @@ func (o *originSrv) serve(c net.Conn) {
 		if err != nil {
 			return
 		}
-		io.Copy(io.Discard, req.Body)
 		path := req.URL.Path
+		o.mu.Lock()
+		if rs := o.scripts[path]; rs != nil {
+			for _, im := range rs.Interim { // before the request body is read: the transport may be waiting for 100 Continue
+				c.Write([]byte(im))
+			}
+		}
+		o.mu.Unlock()
+		io.Copy(io.Discard, req.Body)
 		o.mu.Lock()
 		r := o.scripts[path]
 		o.seenAE[path] = req.Header.Get("Accept-Encoding")
@@ -471,6 +480,9 @@ func renderReq(x xreq, origin, path string) []byte {
 	if x.AcceptE != "" {
 		fmt.Fprintf(&sb, "Accept-Encoding: %s\r\n", x.AcceptE)
 	}
+	if x.Expect {
+		sb.WriteString("Expect: 100-continue\r\n")
+	}
 	if x.Method == "POST" {
 		fmt.Fprintf(&sb, "Content-Length: %d\r\n", len(x.Body))
 	}
@@ -692,6 +704,9 @@ func genResp(r *rng.R, meth string) oresp {
 			o.Gzip = true
 		}
 	}
+	if r.Chance(1, 12) {
+		o.Interim = []string{"HTTP/1.1 103 Early Hints\r\nLink: </x>\r\n\r\n"}
+	}
 	// cut the wire bytes: sometimes in the middle of a CRLF, sometimes at random
 	if r.Chance(1, 2) {
 		w := (&originSrv{}).wire(&o, false)
@@ -840,6 +855,23 @@ func corpus() []ecaseJ {
 		{Class: "trailers:http10-client", Exchs: []exchJ{
 			{h10, oresp{Proto: "HTTP/1.1", Code: 200, Reason: "OK", Framing: "chunked", Body: "hello", Chunks: []int{5}, Declare: true,
 				Trailers: []hfield{{"X-T", "v1"}}, HeadCL: -1, KeepOpen: true}}}},
+		{Class: "interim-responses:103-early-hints", Exchs: []exchJ{
+			{get("HTTP/1.1"), oresp{Interim: []string{"HTTP/1.1 103 Early Hints\r\nLink: </style.css>; rel=preload\r\n\r\n"}, Proto: "HTTP/1.1", Code: 200, Reason: "OK",
+				Fields: []hfield{{"X-Keep", "k"}}, Framing: "cl", Body: "final", HeadCL: -1, KeepOpen: true}},
+			{get("HTTP/1.1"), plain}}},
+		{Class: "interim-responses:100-continue-solicited", Exchs: []exchJ{
+			{xreq{Method: "POST", Proto: "HTTP/1.1", Body: "q=1", Expect: true}, oresp{Interim: []string{"HTTP/1.1 100 Continue\r\n\r\n"}, Proto: "HTTP/1.1", Code: 201, Reason: "Created",
+				Framing: "chunked", Body: "made", Chunks: []int{4}, HeadCL: -1, KeepOpen: true}},
+			{get("HTTP/1.1"), plain}}},
+		{Class: "interim-responses:several-unsolicited", Exchs: []exchJ{
+			{get("HTTP/1.1"), oresp{Interim: []string{"HTTP/1.1 100 Continue\r\n\r\n", "HTTP/1.1 102 Processing\r\n\r\n", "HTTP/1.1 103 Early Hints\r\nLink: </a>\r\n\r\n"},
+				Proto: "HTTP/1.1", Code: 200, Reason: "OK", Framing: "chunked", Body: "hello world", Chunks: []int{5, 6}, Declare: true, Trailers: []hfield{{"X-T", "v"}}, HeadCL: -1, KeepOpen: true}},
+			{xreq{Method: "HEAD", Proto: "HTTP/1.1"}, oresp{Interim: []string{"HTTP/1.1 103 Early Hints\r\nLink: </b>\r\n\r\n"}, Proto: "HTTP/1.1", Code: 200, Reason: "OK", Framing: "none", HeadCL: 7, KeepOpen: true}},
+			{get("HTTP/1.1"), oresp{Interim: []string{"HTTP/1.1 103 Early Hints\r\n\r\n"}, Proto: "HTTP/1.1", Code: 304, Reason: "Not Modified", Fields: []hfield{{"Etag", "\"x\""}}, Framing: "none", HeadCL: -1, KeepOpen: true}},
+			{get("HTTP/1.1"), plain}}},
+		{Class: "interim-responses:http10-client", Exchs: []exchJ{
+			{h10, oresp{Interim: []string{"HTTP/1.1 103 Early Hints\r\nLink: </a>\r\n\r\n"}, Proto: "HTTP/1.1", Code: 200, Reason: "OK", Framing: "cl", Body: "final", HeadCL: -1, KeepOpen: true}},
+			{h10, plain}}},
 		{Class: "chunked-with-trailers", Exchs: []exchJ{{get("HTTP/1.1"), chTr}, {get("HTTP/1.1"), plain}, {xreq{Method: "HEAD", Proto: "HTTP/1.1"}, plain}, {get("HTTP/1.1"), ch}}},
 	}...)
 }
